@@ -37,6 +37,24 @@ Theorem C13_trees_are_grammar_derivations : forall h, wf_hc h = true ->
 Proof. exact hc_is_derivation. Qed.
 Print Assumptions C13_trees_are_grammar_derivations.
 
+(* ... and conversely every derivation of HAVING_CLAUSE in the generated grammar is one of these trees: the theorems about
+   all trees are theorems about ALL HAVING token strings the real grammar derives *)
+Theorem C13_grammar_derivations_are_trees : forall ts,
+  der sbql sy_HAVING_CLAUSE (codes ts) -> exists h, wf_hc h = true /\ yield h = ts.
+Proof. exact grammar_derivation_is_tree. Qed.
+Print Assumptions C13_grammar_derivations_are_trees.
+
+(* hence, for every token string the grammar derives: if the builder accepts it, the result is the expression denoted
+   by a derivation of that string *)
+Theorem C13_builder_on_grammar_strings : forall ts e,
+  der sbql sy_HAVING_CLAUSE (codes ts) -> new_evaluator ts = Ok e ->
+  exists h, wf_hc h = true /\ yield h = ts /\ denote h = Some e.
+Proof.
+  intros ts e D H. destruct (grammar_derivation_is_tree ts D) as (h & W & Y). exists h. split; [exact W|]. split; [exact Y|].
+  apply (builder_agrees_with_grammar cur_lenient_parens h e W). rewrite Y. exact H.
+Qed.
+Print Assumptions C13_builder_on_grammar_strings.
+
 Theorem C13_grammar_rules :
   rules sbql sy_HAVING_CLAUSE =
     [[T tk_BINDING; NT sy_HAVING_CLAUSE_BINARY_COMPOSITE]; [T tk_NODE; NT sy_HAVING_CLAUSE_BINARY_COMPOSITE];
